@@ -75,6 +75,47 @@ def exported_names(tree):
     return set(names)
 
 
+def native_check(ctx, rule):
+    M = ctx.model
+    native = M.module_assigns[M.CORE].get("native")
+    ok = native is not None and ast.unparse(native) in ("sys.byteorder == 'little'", "(sys.byteorder == 'little')")
+    ctx.ob(rule, "native", ok, "native means little-endian host: native = (sys.byteorder == 'little'), so Int24*n follow the struct-based Int*n aliases", key="native",
+           loc="%s:%d" % (M.CORE, native.lineno) if native is not None else M.CORE)
+
+
+def helper_range_checks(ctx, rule):
+    """Range/conversion discipline of the integer helpers: both representations accept exactly the two's-complement range."""
+    M = ctx.model
+    fi = M.function("integer2bits")
+    paths = paths_of(ctx, fi)
+    number, width = ("param", "number"), ("param", "width")
+    half = ("bin", "//", ("bin", "**", N.const(2), width), N.const(2))
+    smin, smax = N.mk_neg(half), N.mk_add(half, N.const(1), -1)
+    umax = N.mk_add(("bin", "**", N.const(2), width), N.const(1), -1)
+    sgn = ("param", "signed")
+    want_s = N.mk_not(N.mk_bool("and", [N.mk_cmp("<=", smin, number), N.mk_cmp("<=", number, smax)]))
+    want_u = N.mk_not(N.mk_bool("and", [N.mk_cmp("<=", N.const(0), number), N.mk_cmp("<=", number, umax)]))
+    rs = [p for p in paths if p.outcome[0] == "raise" and sgn in p.guards() and p.guards()[-1] == want_s]
+    ru = [p for p in paths if p.outcome[0] == "raise" and N.mk_not(sgn) in p.guards() and p.guards()[-1] == want_u]
+    ctx.ob(rule, fi, len(rs) == 1 and rs[0].outcome[1].get("cls") == "ValueError", "integer2bits rejects signed values outside [-(2**w // 2), 2**w // 2 - 1]", key="integer2bits signed range")
+    ctx.ob(rule, fi, len(ru) == 1 and ru[0].outcome[1].get("cls") == "ValueError", "integer2bits rejects unsigned values outside [0, 2**w - 1]", key="integer2bits unsigned range")
+    ok_rets = [p for p in paths if p.returns]
+    ctx.ob(rule, fi, bool(ok_rets) and all((N.mk_not(want_s) in p.guards()) or (N.mk_not(want_u) in p.guards()) for p in ok_rets), "integer2bits returns only for in-range values", key="integer2bits returns in range")
+    fi = M.function("integer2bytes")
+    paths = paths_of(ctx, fi)
+    calls = [e for p in paths for e in p.events if e.kind == "CALL" and e["func"] == ("attr", ("free", "int"), "to_bytes")]
+    ok = bool(calls) and all(e["args"][:3] == (number, width, N.const("big")) and dict(e["kw"]).get("signed") == sgn for e in calls)
+    ctx.ob(rule, fi, ok, "integer2bytes is int.to_bytes(number, width, 'big', signed=signed) (range check delegated to the interpreter)", key="integer2bytes conversion")
+    conv = [p for p in paths if any(e.kind == "CATCH" and "OverflowError" in e["types"] for e in p.events)]
+    ctx.ob(rule, fi, bool(conv) and all(p.outcome[0] == "raise" and p.outcome[1].get("cls") == "ValueError" for p in conv), "an out-of-range value becomes ValueError (then IntegerError in the construct)", key="integer2bytes overflow")
+    fi = M.function("bytes2integer")
+    paths = paths_of(ctx, fi)
+    rets = [p for p in paths if p.returns]
+    ok = len(rets) == 1 and rets[0].retval[0] == "call" and rets[0].retval[1] == ("attr", ("free", "int"), "from_bytes") and rets[0].retval[2] == (("param", "data"), N.const("big")) \
+        and dict(rets[0].retval[3]).get("signed") == sgn
+    ctx.ob(rule, fi, ok, "bytes2integer is int.from_bytes(data, 'big', signed=signed)", key="bytes2integer conversion")
+
+
 def run(ctx):
     M = ctx.model
     core = M.modules[M.CORE]
@@ -142,7 +183,7 @@ def run(ctx):
         r = sing.get(alias)
         ctx.ob("C03.R1", alias, r == ("alias", target), "%s is an alias of %s" % (alias, target), key="%s alias" % alias, loc=loc_of(alias))
         ctx.ob("C03.R1", alias, alias in exported, "%s is exported by construct.__all__" % alias, key="%s exported" % alias, loc=init_rel)
-    ctx.ob("C03.R1", "native", native_ok, "native means little-endian host: native = (sys.byteorder == 'little')", key="native", loc=loc_of("native"))
+    native_check(ctx, "C03.R1")
     ctx.extra["public_numeric_names"] = n
     if n < 49:
         ctx.error("C03.R1 enumerated %d names, floor 49" % n)
@@ -210,34 +251,7 @@ def run(ctx):
     bad = [p for p in paths if neg in p.guards()]
     ok = bool(bad) and all(p.outcome[0] == "raise" and p.outcome[1].get("cls") == "IntegerError" for p in bad) and all(N.mk_not(neg) in p.guards() for p in paths if p.returns)
     ctx.ob("C03.R4", fi, ok, "VarInt._build rejects negative numbers with IntegerError", key="VarInt negative")
-    fi = M.function("integer2bits")
-    paths = paths_of(ctx, fi)
-    number, width = ("param", "number"), ("param", "width")
-    half = ("bin", "//", ("bin", "**", N.const(2), width), N.const(2))
-    smin, smax = N.mk_neg(half), N.mk_add(half, N.const(1), -1)
-    umax = N.mk_add(("bin", "**", N.const(2), width), N.const(1), -1)
-    sgn = ("param", "signed")
-    want_s = N.mk_not(N.mk_bool("and", [N.mk_cmp("<=", smin, number), N.mk_cmp("<=", number, smax)]))
-    want_u = N.mk_not(N.mk_bool("and", [N.mk_cmp("<=", N.const(0), number), N.mk_cmp("<=", number, umax)]))
-    rs = [p for p in paths if p.outcome[0] == "raise" and sgn in p.guards() and p.guards()[-1] == want_s]
-    ru = [p for p in paths if p.outcome[0] == "raise" and N.mk_not(sgn) in p.guards() and p.guards()[-1] == want_u]
-    ctx.ob("C03.R4", fi, len(rs) == 1 and rs[0].outcome[1].get("cls") == "ValueError", "integer2bits rejects signed values outside [-(2**w // 2), 2**w // 2 - 1]", key="integer2bits signed range")
-    ctx.ob("C03.R4", fi, len(ru) == 1 and ru[0].outcome[1].get("cls") == "ValueError", "integer2bits rejects unsigned values outside [0, 2**w - 1]", key="integer2bits unsigned range")
-    ok_rets = [p for p in paths if p.returns]
-    ctx.ob("C03.R4", fi, bool(ok_rets) and all((N.mk_not(want_s) in p.guards()) or (N.mk_not(want_u) in p.guards()) for p in ok_rets), "integer2bits returns only for in-range values", key="integer2bits returns in range")
-    fi = M.function("integer2bytes")
-    paths = paths_of(ctx, fi)
-    calls = [e for p in paths for e in p.events if e.kind == "CALL" and e["func"] == ("attr", ("free", "int"), "to_bytes")]
-    ok = bool(calls) and all(e["args"][:3] == (number, width, N.const("big")) and dict(e["kw"]).get("signed") == sgn for e in calls)
-    ctx.ob("C03.R4", fi, ok, "integer2bytes is int.to_bytes(number, width, 'big', signed=signed) (range check delegated to the interpreter)", key="integer2bytes conversion")
-    conv = [p for p in paths if any(e.kind == "CATCH" and "OverflowError" in e["types"] for e in p.events)]
-    ctx.ob("C03.R4", fi, bool(conv) and all(p.outcome[0] == "raise" and p.outcome[1].get("cls") == "ValueError" for p in conv), "an out-of-range value becomes ValueError (then IntegerError in the construct)", key="integer2bytes overflow")
-    fi = M.function("bytes2integer")
-    paths = paths_of(ctx, fi)
-    rets = [p for p in paths if p.returns]
-    ok = len(rets) == 1 and rets[0].retval[0] == "call" and rets[0].retval[1] == ("attr", ("free", "int"), "from_bytes") and rets[0].retval[2] == (("param", "data"), N.const("big")) \
-        and dict(rets[0].retval[3]).get("signed") == sgn
-    ctx.ob("C03.R4", fi, ok, "bytes2integer is int.from_bytes(data, 'big', signed=signed)", key="bytes2integer conversion")
+    helper_range_checks(ctx, "C03.R4")
     cnt = ("eval", N.selfattr("count"), CTX)
     for cls in ("Array", "LazyArray"):
         for meth in ("_parse", "_build"):
